@@ -57,3 +57,9 @@ def sym_fab(ctx, F, off, nd, nc=None, canonical=True):
     for f in fab_facts(fab, canonical):
         ctx.assume(f)
     return fab
+
+
+def size_of(ctx, shape):
+    """number of elements of an array of this shape, named the way NDArray.size() names it (so code and spec agree
+    syntactically)"""
+    return ctx.define(zprod(list(shape)), "size")
